@@ -10,6 +10,7 @@ import builtins
 import collections
 import concurrent.futures
 import cProfile
+import io
 import json
 import logging
 import os
@@ -18,6 +19,7 @@ import re
 import subprocess
 import sys
 import tempfile
+import tokenize
 from builtins import print as real_print
 from collections.abc import Iterable, Iterator, Mapping, Sequence
 from contextlib import contextmanager
@@ -136,6 +138,17 @@ class Failure(TypedDict):
     context: NotRequired[str]
     message: NotRequired[str]
     extra_metadata: NotRequired[dict[str, Any]]
+
+
+def _is_in_comment(line: str, index: int) -> bool:
+    """Whether the character at this index of a line of code is part of a comment."""
+    try:
+        for token in tokenize.generate_tokens(io.StringIO(line).readline):
+            if token.type == tokenize.COMMENT:
+                return token.start[1] <= index
+    except (tokenize.TokenError, SyntaxError):
+        pass
+    return False
 
 
 def _split_source_lines(contents: str) -> list[str]:
@@ -283,14 +296,18 @@ class BaseNodeVisitor(ast.NodeVisitor):
         for i, line in self.get_unused_ignores():
             node = _FakeNode(i + 1, line.index(IGNORE_COMMENT))
             stripped = line.strip()
-            if stripped == IGNORE_COMMENT or re.match(
-                rf"^{re.escape(IGNORE_COMMENT)}\[[^\s\]]+\]$", stripped
-            ):
-                # just remove the line
+            if stripped.startswith(IGNORE_COMMENT):
+                # The whole line is a comment (possibly followed by an explanation):
+                # just remove the line.
                 replacement = Replacement([i + 1], [])
+            elif _is_in_comment(line, line.index(IGNORE_COMMENT)):
+                # A trailing comment: cut the comment (and anything after the marker,
+                # which is part of the same comment) but keep the code.
+                code_part = line[: line.index(IGNORE_COMMENT)].rstrip()
+                replacement = Replacement([i + 1], [code_part + "\n"])
             else:
-                rgx = re.compile(rf"{re.escape(IGNORE_COMMENT)}(\[[^\s\]]+\])?")
-                replacement = Replacement([i + 1], [rgx.sub("", line)])
+                # The marker is not in a comment (e.g., it is part of a string).
+                replacement = None
             self.show_error(
                 node, error_code=error_code, replacement=replacement, obey_ignore=False
             )
